@@ -153,6 +153,19 @@ func runHarness(p *symex.Program, h *ssa.Function, tc tierCfg, solverKind string
 	return &harnessResult{h: h, ex: ex, solver: s, wall: time.Since(t0)}
 }
 
+// engineFailure is the result of a harness on which the engine itself failed: everything about it is inconclusive.
+func engineFailure(p *symex.Program, h *ssa.Function, msg string) *harnessResult {
+	s, _ := smt.NewSolver("z3-new", 1000)
+	ex := symex.NewExec(p, h, nil, symex.Limits{})
+	if len(msg) > 300 {
+		msg = msg[:300]
+	}
+	ex.Incomplete = append(ex.Incomplete, "ENGINE-ERROR (no verdict for this harness): "+msg)
+	ex.Paths = 1
+	s.Close()
+	return &harnessResult{h: h, ex: ex, solver: s}
+}
+
 func runCmd(args []string) int {
 	if len(args) < 1 {
 		fmt.Println("usage: gosmt run <property> [--tier quick|thorough]")
@@ -205,6 +218,12 @@ func runCmd(args []string) int {
 			defer wg.Done()
 			sem <- struct{}{}
 			defer func() { <-sem }()
+			defer func() {
+				// an engine failure on one harness must not take the other harnesses' verdicts with it
+				if rec := recover(); rec != nil {
+					results[i] = engineFailure(p, h, fmt.Sprint(rec))
+				}
+			}()
 			r := runHarness(p, h, tc, solverFor(h, tc.solvers[0]), known, seed)
 			// thorough: cross-check verdicts with the other solvers
 			if tc.name == "thorough" && !strings.HasSuffix(h.Name(), "_cvc5") {
